@@ -1,16 +1,23 @@
 #!/bin/bash
-# usage: tools/matrix.sh [names...]   — runs every quick check against every seeded change; writes seeded/MATRIX.md
-cd /verif
-OUT=/verif/seeded/MATRIX.md
+# usage: tools/matrix.sh [names...]
+# Runs quick checks against every seeded change in a SCRATCH COPY (/tmp/mx: worktree of /repo + copy of /verif),
+# so /repo and /verif stay untouched and usable meanwhile. Writes /verif/seeded/MATRIX.md when run without names.
+# FULL=1: all 20 checks per change (slow); default: the change's own property and its neighbours.
+set -u
+MX=/tmp/mx
 ALL="C01 C02 C03 C04 C05 C06 C07 C08 C09 C10 C11 C12 C13 C14 C15 C16 C17 C18 C19 C20"
 NAMES="$@"; [ -z "$NAMES" ] && NAMES=$(ls /verif/seeded | grep -v MATRIX | sort)
+git -C /repo worktree remove --force $MX/repo 2>/dev/null; rm -rf $MX; mkdir -p $MX
+git -C /repo worktree add -q --detach $MX/repo HEAD || exit 2
+rsync -a --exclude .build --exclude .git --exclude evidence/replays /verif/ $MX/verif/
+sed -i "s#path = \"/repo/chiritori\"#path = \"$MX/repo/chiritori\"#" $MX/verif/harness/Cargo.toml
+sed -i "s#^target-dir.*#target-dir = \"$MX/verif/.build/harness\"#" $MX/verif/harness/.cargo/config.toml
+export VERIF_ROOT=$MX/verif REPO_ROOT=$MX/repo
 TMP=$(mktemp)
 for n in $NAMES; do
   P=/verif/seeded/$n/patch.diff
   [ -f "$P" ] || continue
-  if [ -n "$(git -C /repo status --porcelain --untracked-files=no)" ]; then echo "/repo dirty"; exit 2; fi
-  git -C /repo apply "$P" || { echo "$n: patch does not apply"; continue; }
-  CAUGHT=""; BROKEN=""
+  git -C $MX/repo checkout -q -- . ; git -C $MX/repo apply "$P" || { echo "| $n | patch does not apply | | |" | tee -a $TMP; continue; }
   OWN=${n%%-*}
   case $OWN in
     C07|C08) LIST="C07 C08 C01 C18";;
@@ -28,16 +35,14 @@ for n in $NAMES; do
     *) LIST="$ALL";;
   esac
   [ -n "${FULL:-}" ] && LIST="$ALL"
-  RAN="$LIST"
+  CAUGHT=""; BROKEN=""
   for ID in $LIST; do
-    OUTP=$(/verif/bin/check $ID quick 2>&1); RC=$?
+    OUTP=$($MX/verif/bin/check $ID quick 2>&1); RC=$?
     if [ $RC -eq 1 ]; then CAUGHT="$CAUGHT $ID"; elif [ $RC -ne 0 ]; then BROKEN="$BROKEN $ID(exit$RC)"; fi
   done
-  git -C /repo checkout -- .
-  echo "| $n | ${CAUGHT:- none} | $RAN | ${BROKEN:--} |" | tee -a $TMP
+  echo "| $n | ${CAUGHT:- none} | $LIST | ${BROKEN:--} |" | tee -a $TMP
 done
-{ echo "| seeded change | quick checks that report a violation | quick checks run against it | inconclusive |"; echo "|---|---|---|---|"; cat $TMP; } > $OUT.new
-if [ -z "$@" ]; then mv $OUT.new $OUT; else cat $OUT.new; rm $OUT.new; fi
-rm -f $TMP
-# leave the build outputs matching the unchanged tree
-/verif/bin/build cli >/dev/null 2>&1
+{ echo "| seeded change | quick checks that report a violation | quick checks run against it | inconclusive |"; echo "|---|---|---|---|"; cat $TMP; } > /tmp/MATRIX.new
+if [ $# -eq 0 ]; then cp /tmp/MATRIX.new /verif/seeded/MATRIX.md; fi
+cat /tmp/MATRIX.new; rm -f $TMP
+git -C /repo worktree remove --force $MX/repo; rm -rf $MX
